@@ -178,6 +178,10 @@ def generate(seed, tier):
                 if free:
                     i = g.choice(free)
                     op["ib"] = [i, g.pick(SUBS) if i == 0 else g.pick(PREDS) if i == 1 else g.pick(objs)]
+                    free2 = [j for j in free if j != i]
+                    if free2 and g.chance(0.5):
+                        j = g.choice(free2)
+                        op["ib2"] = [j, g.pick(SUBS) if j == 0 else g.pick(PREDS) if j == 1 else g.pick(objs)]
             if k == "query" and g.chance(0.3):
                 op["prefix"] = True
         elif k == "add-bnode":
@@ -720,6 +724,12 @@ def _execute(trace, ctx):
                 from rdflib import Variable
 
                 kwargs["initBindings"] = {Variable("v%d" % ib[0]): T(ib[1])}
+                if op.get("ib2"):
+                    # two bindings, handed over in an order that is not the alphabetical one of their names
+                    b2 = op["ib2"]
+                    pair = sorted([(ib[0], ib[1]), (b2[0], b2[1])], reverse=True)
+                    kwargs["initBindings"] = {Variable("v%d" % k_): T(v_) for k_, v_ in pair}
+                    ctx.probe("query-with-two-initBindings")
             if op.get("prefix"):
                 kwargs["initNs"] = {"exq": EX}
 
@@ -730,7 +740,8 @@ def _execute(trace, ctx):
                 return sorted((tuple(sorted((str(kk), key(vv)) for kk, vv in row.asdict().items())) for row in res_), key=repr)
 
             def expect():
-                hits = [x for x in model.get(gk, set()) if match(t, x) and (not ib or x[ib[0]] == skey(ib[1]))]
+                ib2 = op.get("ib2") if ib else None
+                hits = [x for x in model.get(gk, set()) if match(t, x) and (not ib or x[ib[0]] == skey(ib[1])) and (not ib2 or x[ib2[0]] == skey(ib2[1]))]
                 if None not in t:
                     return bool(hits)
                 return sorted((tuple(sorted(("v%d" % i, x[i]) for i in range(3) if t[i] is None)) for x in hits), key=repr)
